@@ -19,7 +19,7 @@ REQUIRED = [
     "Sqfs.C01.meta_stream_roundtrip", "Sqfs.C01.meta_ref_roundtrip",
     "Sqfs.C01.table_roundtrip", "Sqfs.C01.id_table_roundtrip", "Sqfs.C01.frag_table_roundtrip",
     "Sqfs.C01.export_table_roundtrip", "Sqfs.C01.super_roundtrip",
-    "Sqfs.C01.xattr_roundtrip", "Sqfs.C01.xattr_loc_index_lt_count",
+    "Sqfs.C01.xattr_roundtrip", "Sqfs.C01.xattr_record_index", "Sqfs.C01.xattr_loc_index_lt_count",
     "Sqfs.C01.file_content_roundtrip",
     "Sqfs.C01.refuse_unrepresentable", "Sqfs.C01.representable_accepted",
     "Sqfs.C01.parse_serialize_partial",
